@@ -23,7 +23,8 @@ SKIPPED = object()
 STRINGS = ['', 'a', 'abc', 'Hello World', 'héllo', 'ÀÉÎ', 'ß', 'straße', 'a%20b', '%41%42', 'a+b', '100%', '%zz', '%C3%A9', '%E9', 'x-y-z', 'arn:aws:s3:::bucket',
            '12', '-7', '+3', '007', '1.5', 'abc12', 'true', 'TRUE', 'False', 'yes', '2024-01-01T00:00:00Z', '2024-01-01T00:00:00+05:30', 'not a date', '{"a": [1, 2]}',
            '[1, "x", null]', '{"a": ', '9223372036854775807', '9223372036854775808', 'ǆ', 'İ']
-OTHERS = [0, 5, -3, 2.5, -1.5, -0.25, -2.0, -7.9, 0.99, 1e10, True, False, None, [], ['a', 'b'], {'k': 'v'}, ['a', 1]]
+OTHERS = [0, 5, -3, 2.5, -1.5, -0.25, -2.0, -7.9, 0.99, 1e10, True, False, None, [], ['a', 'b'], {'k': 'v'}, ['a', 1],
+          2147483647, 2147483648, 5000000000, -4294967296, 4294967296, 9007199254740992, -2147483649]     # integers beyond i32 (and at 2^53)
 
 
 def ref(fn, v, extra=()):
@@ -136,7 +137,8 @@ def single_value_cases(ctx, thorough):
             if fn == 'substring':
                 extras = [(0, 1), (1, 3), (0, 0), (2, 1), (0, 40), (1, 2), (-2, 3), (-1, 2), (0, -1)]
             if fn == 'regex_replace':
-                extras = [('-', '_'), ('^(\\w+) (\\w+)$', '${2} ${1}'), ('[0-9]+', '#'), ('^arn:(\\w+):(\\w+):.*$', '${2}/${1}'), ('z', 'Q')]
+                extras = [('-', '_'), ('^(\\w+) (\\w+)$', '${2} ${1}'), ('[0-9]+', '#'), ('^arn:(\\w+):(\\w+):.*$', '${2}/${1}'), ('z', 'Q'),
+                          ('^', 'pre-'), ('$', '-suf'), ('\\b', '|')]          # patterns that match the empty string
             for ex in extras:
                 exp = ref(fn, v, ex)
                 if exp is None:
